@@ -211,6 +211,8 @@ def check(rec, kind, idx, rng, tier):
         f = getattr(classify, fname)
         for trial in range(3):
             cls, a = _raster(rng)
+            if kind == 'eqint' and trial == 0 and k in (4, 5, 8, 10, 16, 20) and rng.random() < 0.7:
+                a = (rng.integers(0, 21, a.shape) * 0.05).astype(str(rng.choice(['float32', 'float64']))); cls = 'decimal_grid'
             af = a.astype('float64'); fin = np.isfinite(af)
             nuniq = len(np.unique(af[fin]))
             if nuniq < 2:
@@ -233,7 +235,9 @@ def check(rec, kind, idx, rng, tier):
                     w = (mx - mn) / k
                     t = (af[fin] - mn) / w
                     refc = np.clip(np.ceil(t) - 1, 0, k - 1)
-                    band = np.abs(t - np.round(t)) < 1e-9 * max(1.0, scale / max(w, 1e-300))
+                    # a value within 4 ulp (of the raster's own dtype) of a cut may fall on either side: float32 rasters get float32 cuts
+                    btol = (4 * tol.EPS32 if a.dtype == np.float32 else 1e-9) * max(1.0, scale / max(w, 1e-300))
+                    band = np.abs(t - np.round(t)) < btol
                     band &= ~((af[fin] == mn) | (af[fin] == mx))
                     bad = (c[fin] != refc) & ~band
                     rec.ok('equal_interval.cells_judged', int((~band).sum())); rec.dc('equal_interval.boundary_band', int(band.sum()))
